@@ -3,14 +3,14 @@ CONSTANTS
   NoCase = FALSE
   Phones <- MCPhones
   PhoneLen <- MCPhoneLen
-  Spellings <- Sp4
+  Spellings <- Sp3
   Prons <- PronsD
   InitWords <- NoInit
   InitCap = 2
   Inc = 2
-  MaxWords = 4
+  MaxWords = 3
   Updates <- OnlyFalse
-  WithUse = TRUE
+  WithUse = FALSE
   Deviations <- DevRctx
 CHECK_DEADLOCK FALSE
 INVARIANTS TypeOK WellFormed HtExact ChainExact D2pComplete NoCrash SearchFresh
